@@ -52,6 +52,8 @@ pub fn explorer_plan(prop: &str, thorough: bool) -> Option<Plan> {
         }
         "C02" => {
             p.checks = Checks { exact: true, accuracy: true, ..Default::default() };
+            // a fifth of the cases mix magnitudes from 1e-9 to 1e6 inside one index (a tiny item next to a large query)
+            p.values = vec![Values::Grid, Values::Uniform, Values::Grid, Values::Uniform, Values::Mixed(false)];
             p.queries_per_build = 5;
             p.rounds = (1, 4);
             p.max_items = 300;
@@ -85,7 +87,7 @@ pub fn explorer_plan(prop: &str, thorough: bool) -> Option<Plan> {
         "C04" => {
             p.checks = Checks { routing: true, accuracy: true, ..Default::default() };
             // magnitudes matter: a margin that is tiny but not zero must still decide the side
-            p.values = vec![Values::Uniform, Values::Uniform, Values::Grid, Values::Scaled(-9), Values::Scaled(-5), Values::Scaled(6)];
+            p.values = vec![Values::Uniform, Values::Uniform, Values::Grid, Values::Scaled(-9), Values::Scaled(-5), Values::Scaled(6), Values::Mixed(true), Values::Mixed(true)];
             p.dims = vec![2, 3, 4, 5, 7, 8, 15, 16, 17, 31, 32, 33, 63, 64, 65, 100, 128, 130];
             p.split_after = vec![Some(1), Some(2), Some(3), Some(7), None];
             p.rounds = (3, 6);
@@ -94,9 +96,9 @@ pub fn explorer_plan(prop: &str, thorough: bool) -> Option<Plan> {
             Plan {
                 profile: p,
                 cases: (6000, 90000),
-                required: &["routing_margins_checked", "routing_self_lookups", "routing_items_with_clean_tree"],
+                required: &["routing_margins_checked", "routing_margins_vs_definition", "routing_self_lookups", "routing_items_with_clean_tree"],
                 custom_gen: None,
-                rule: "case = explorer history with >=3 rounds and small buckets; after every build each (split, item below it) pair has its margin recomputed with arroy's own margin function on the stored bytes and compared with the side the item lies on; self-lookups with search_k=1 for items that have a clean tree; non-trivial+distinct = distinct forest shapes with splits",
+                rule: "case = explorer history with >=3 rounds and small buckets; after every build each (split, item below it) pair has its margin recomputed with arroy's own margin function on the stored bytes (in the reader's and in the writer's argument order) and, independently, from the definition in f64 on the raw bytes (when that leaves no doubt about the sign all three must agree with the side the item lies on); a quarter of the cases mix magnitudes from 1e-9 to 1e19 per vector; self-lookups with search_k=1 for items that have a clean tree; non-trivial+distinct = distinct forest shapes with splits",
             }
         }
         "C05" => {
